@@ -109,7 +109,12 @@ class Verifier:
                             if '.' in m: out.add(m)
         return out
     def auto_inline(self, fr):
-        return False
+        """one-line accessor methods (`return <expr>`) of classes declared in the sidecar are executed in place; listed in the evidence"""
+        body = [st for st in fr.node.body if not (isinstance(st, ast.Expr) and isinstance(st.value, ast.Constant))]
+        if len(body) != 1 or not isinstance(body[0], ast.Return) or body[0].value is None: return False
+        if fr.cls is None: return False
+        declared = {c for (_, c) in list(self.w.enum_src.values()) + list(self.w.rec_src.values()) + list(self.w.class_src.values())}
+        return fr.cls.name in declared
     def qual_of_nested(self, frame, st):
         c = frame.get('contract')
         base = c.qual if c else frame['func'].name
@@ -302,6 +307,11 @@ class Verifier:
                     try: result = ex.co(result, rty)
                     except Unsupported as e: raise Unsupported('return value of %s: %s' % (c.key, e))
                 post_env['result'] = result
+                if c.hints.get('lemmas'):
+                    saved_env = ex.st.env; ex.st.env = post_env
+                    try:
+                        for h in c.hints['lemmas']: ex.assume_lemma(h)       # instances of definitional axioms of recursive spec functions
+                    finally: ex.st.env = saved_env
                 for k, e in enumerate(c.ensures):
                     f = ex.eval_spec(e, env=post_env)
                     ex.prove(f, '%s/post#%d' % (c.oname, k), 'post', e, c.tags.get(e, 'property'))
